@@ -65,11 +65,11 @@ PROPS = {
             "explanation": "oracles on the real packets: C18.decodable (independent spec decoder, one well-formed message per packet), with all / alternate droppable packets removed, droppable only when asked, "
                            "messages stamped with the call's clock / caller's timestamp and stream (C18.messages_carry_expected_timestamp_and_stream); histories with a failed call = known finding K2"},
     "C14": {"components": ["amf0"], "rule": AMF0_RULE + "; decm: counts/lengths far above the data present under a counting allocator; deep/deepx: nesting decoded in a child process on a 2 MiB stack",
-            "explanation": "oracles: C14.alloc_bounded (peak live bytes and largest single request of the real decoder <= 256*len + 128 KiB), C14.deep_nesting_no_abort (depths 1..3000 must decode; depth 20000 = known finding K1)"},
+            "explanation": "oracles: C14.alloc_bounded (peak live bytes and largest single request of the real decoder <= 256*len + 128 KiB), C14.deep_nesting_no_abort (depths 1..3000 must decode; depth 20000 = known finding K1), C14.decode_terminates (a case on which the decoder does not return within the watchdog limit)"},
     "C19": {"components": ["chunk", "amf0", "server", "client", "interop"],
             "rule": CHUNK_RULE + " -- chunk sizes 0, 1..5, 2^24-1, 2^24, 2^24+1, multiples of 2^24, 2^31-1, 2^31, 2^32-1; payloads 16777215/16777216 (thorough); "
                     "AMF0 strings/names 65534..70000 bytes and characters, empty names; session configs with chunk sizes 0, 1, 2, 3, 5, 2^31-1, 2^31",
-            "explanation": "oracles: C19.refused_or_honoured (real serializer refuses exactly 0 / > 2^31-1 / > 16777215 bytes), C19.amf0_refused, C19.accepted_chunk_size_yields_working_codec (real round trip after every accepted Set Chunk Size), C19.accepted_config_yields_working_session (real client against real server under every accepted pair of configurations), C19.session_of_accepted_config_is_decodable; hangs and allocation blow-ups are observations of the harness watchdog (20 s per case) and allocation cap"},
+            "explanation": "oracles: C19.refused_or_honoured (real serializer refuses exactly 0 / > 2^31-1 / > 16777215 bytes), C19.amf0_refused, C19.accepted_chunk_size_yields_working_codec (real round trip after every accepted Set Chunk Size), C19.accepted_config_yields_working_session (real client against real server under every accepted pair of configurations), C19.session_of_accepted_config_is_decodable, C19.client_config_chunk_refused (a client configured with chunk size 0 or above 2^31-1 never reports an accepted connection); hangs and allocation blow-ups are observations of the harness watchdog (20 s per case) and allocation cap"},
     "C03": {"components": ["amf0", "msg", "chunk", "hs", "server", "client", "interop"],
             "rule": "all entry points: AMF0 decoder (reference encodings, all markers, truncations, mutated/random bytes, adversarial counts), message decoder (all 256 type ids x boundary/"
                     "well-formed/random bodies), chunk deserializer (library, foreign, mutated, random streams under partitions), handshake (malformed version bytes), server and client "
